@@ -319,6 +319,21 @@ def obliquity(repo, rep, span=20, tol=3.0, only_poly=False):
     m = [x for x in T.walk(t2) if x[0] == "call" and x[1] == "Coordinates.mean_obliquity"]
     n_ = [x for x in T.walk(t2) if x[0] == "call" and x[1] == "Coordinates.nutation_obliquity"]
     ok = t2[0] == "angle" and len(m) == 1 and len(n_) == 1 and t2[1] == T.add(T.call("degof", m[0]), T.call("degof", n_[0])) and m[0][2:] == n_[0][2:]
+    passthrough = (T.call("*", T.sym("ARGS")), ("kw", "**", T.sym("KW")))
+    checked = T.call("Epoch.Epoch.check_input_date", *passthrough)
+    if ok and m[0][2:] != passthrough:
+        a0 = m[0][2:]
+        if len(a0) == 1 and (a0[0] == checked or (a0[0][0] == "epoch" and a0[0][1] in (checked, T.call("jdeof", checked)))):
+            pass                    # the date is parsed once with the routine both terms use themselves
+        elif any(x[0] == "call" and x[1] == "date2jde" for x in T.walk(("bag",) + tuple(a0))):
+            rep.violation("R-SIB", "Coordinates.true_obliquity", "date-forms",
+                          "the date arguments are turned into an Epoch by the Epoch constructor before being handed to mean_obliquity / nutation_obliquity; those "
+                          "parse their arguments with Epoch.check_input_date, which reads date forms differently (a datetime's or a six-value date's time of day is "
+                          "dropped there): true_obliquity(x) != mean_obliquity(x) + nutation_obliquity(x) for such x")
+            return
+        else:
+            rep.inconcl("R-SIB", "Coordinates.true_obliquity", "the two terms are not given the caller's own arguments: " + T.show(m[0])[:100])
+            return
     if ok:
         rep.ok("R-SIB", "Coordinates.true_obliquity", "mean_obliquity(args) + nutation_obliquity(args)")
     else:
